@@ -356,5 +356,224 @@ pub fn ext_nth(k: usize, mut idx: usize, fallback_fns: bool) -> (String, Program
 /// hand-transcribed corpus stories used to calibrate refint against the reference toolchain:
 /// (corpus json relative path, the same story as harness AST)
 pub fn calibration() -> Vec<(&'static str, Program)> {
-    vec![]
+    let tl = Stmt::line;
+    let knot = |name: &str, body: Vec<Stmt>| Knot { name: name.into(), params: vec![], is_function: false, body, stitches: vec![] };
+    let func = |name: &str, params: &[&str], body: Vec<Stmt>| Knot { name: name.into(), params: params.iter().map(|s| s.to_string()).collect(), is_function: true, body, stitches: vec![] };
+    let prog = |globals: Vec<(&str, Expr)>, root: Vec<Stmt>, knots: Vec<Knot>| Program { externals: vec![], globals: globals.into_iter().map(|(n, e)| (n.to_string(), e)).collect(), root, knots };
+    // choice constructors: (sticky, start, only, end, conds, label, body)
+    let ch = |sticky: bool, start: &str, only: &str, end: &str, body: Vec<Stmt>| Choice {
+        sticky,
+        label: None,
+        conds: vec![],
+        start: if start.is_empty() { vec![] } else { vec![t(start)] },
+        only: if only.is_empty() { vec![] } else { vec![t(only)] },
+        end: if end.is_empty() { vec![] } else { vec![t(end)] },
+        fallback: false,
+        body,
+    };
+    let weave = |choices: Vec<Choice>, gather: Option<Gather>| Stmt::Weave(Weave { choices, gather });
+    let g = |text: &str| Some(Gather { label: None, parts: if text.is_empty() { vec![] } else { vec![t(text)] } });
+    let to = |k: &str| Stmt::Divert(Target::Knot(k.into()));
+    let end = || Stmt::Divert(Target::End);
+    vec![
+        ("basictext/twolines.ink.json", prog(vec![], vec![tl("Line."), tl("Other line.")], vec![])),
+        ("glue/simple-glue.ink.json", prog(vec![], vec![line(vec![t("Some "), Part::Glue]), line(vec![t("content "), Part::Glue]), tl("with glue.")], vec![])),
+        (
+            "glue/glue-with-divert.ink.json",
+            prog(
+                vec![],
+                vec![line(vec![t("We hurried home "), Part::Glue]), to("to_savile_row")],
+                vec![knot("to_savile_row", vec![tl("to Savile Row"), to("as_fast_as_we_could")]), knot("as_fast_as_we_could", vec![line(vec![Part::Glue, t(" as fast as we could.")]), end()])],
+            ),
+        ),
+        (
+            "glue/testbugfix2.ink.json",
+            prog(
+                vec![],
+                vec![line(vec![t("A "), Part::Cond(Expr::Call("f".into(), vec![]), vec![t("B")], vec![]), t(" ")]), tl("X")],
+                vec![func("f", &[], vec![Stmt::If { branches: vec![(Expr::Bool(true), vec![Stmt::Return(Some(Expr::Bool(false)))])], else_: None }])],
+            ),
+        ),
+        (
+            "glue/left-right-glue-matching.ink.json",
+            prog(
+                vec![],
+                vec![tl("A line."), Stmt::If { branches: vec![(Expr::Call("f".into(), vec![]), vec![tl("Another line.")])], else_: None }],
+                vec![func("f", &[], vec![line(vec![Part::Cond(Expr::Bool(false), vec![t("nothing")], vec![])]), Stmt::Return(Some(Expr::Bool(true)))])],
+            ),
+        ),
+        ("choices/mixed-choice.ink.json", prog(vec![], vec![tl("Hello world!"), weave(vec![ch(false, "Hello ", "back!", " right back to you!", vec![tl("Nice to hear from you."), Stmt::Divert(Target::Done)])], None)], vec![])),
+        ("choices/suppress-choice.ink.json", prog(vec![], vec![tl("Hello world!"), weave(vec![ch(false, "", "Hello back!", "", vec![tl("Nice to hear from you."), end()])], None)], vec![])),
+        (
+            "nojson:misc/choice-count.ink.json", // (the corpus has no reference JSON for it: not run)
+            prog(
+                vec![],
+                vec![
+                    weave(
+                        vec![
+                            ch(false, "Option A", "", "", vec![]),
+                            ch(false, "Option B", "", "", vec![]),
+                            ch(false, "Option C", "", "", vec![]),
+                            Choice { conds: vec![Expr::bin(Expr::ChoiceCount, BinOp::Eq, Expr::Int(3))], ..ch(false, "All three available ", "", "", vec![end()]) },
+                        ],
+                        g(""),
+                    ),
+                    end(),
+                ],
+                vec![],
+            ),
+        ),
+        (
+            "choices/nested-choice.ink.json",
+            prog(
+                vec![],
+                vec![to("myknot")],
+                vec![knot(
+                    "myknot",
+                    // (a single `-` is a level-1 gather whatever its indentation: `- done sub.` closes
+                    // the section that holds only option1; option2 opens the next one)
+                    vec![
+                        weave(vec![ch(false, "option1", "", "", vec![weave(vec![ch(false, "suboption1", "", "", vec![tl("text suboption1.")]), ch(false, "suboption2", "", "", vec![tl("text suboption2.")])], None)])], g("done sub.")),
+                        weave(vec![ch(false, "option2", "", "", vec![tl("text option2.")])], g("")),
+                        end(),
+                    ],
+                )],
+            ),
+        ),
+        (
+            "choices/sticky-choice.ink.json",
+            prog(
+                vec![],
+                vec![to("homers_couch")],
+                vec![knot(
+                    "homers_couch",
+                    vec![weave(
+                        vec![
+                            ch(true, "", "Eat another donut", "", vec![Stmt::Line { parts: vec![t("You eat another donut. ")], tags: vec![], divert: Some(Target::Knot("homers_couch".into())) }]),
+                            ch(false, "", "Get off the couch", "", vec![tl("You struggle up off the couch to go and compose epic poetry."), end()]),
+                        ],
+                        None,
+                    )],
+                )],
+            ),
+        ),
+        (
+            "nojson:misc/nested-choice-parent-sibling.ink.json",
+            prog(vec![], vec![to("parent")], {
+                let d1 = || Stmt::Divert(Target::Stitch("parent".into(), "done1".into()));
+                vec![Knot {
+                    name: "parent".into(),
+                    params: vec![],
+                    is_function: false,
+                    body: vec![
+                        tl("\"P\""),
+                        weave(vec![ch(false, "", "A", "", vec![tl("\"A\""), weave(vec![ch(false, "", "AA", "", vec![d1()]), ch(false, "", "AB", "", vec![d1()])], g("")), d1()]), ch(false, "", "B", "", vec![d1()])], None),
+                    ],
+                    stitches: vec![("done1".into(), vec![tl("\"D1\""), end()])],
+                }]
+            }),
+        ),
+        (
+            "conditional/stopping.ink.json",
+            prog(
+                vec![],
+                vec![to("test")],
+                vec![knot(
+                    "test",
+                    vec![line(vec![Part::Seq(SeqKind::Stopping, vec!["I entered the casino.".into(), "I entered the casino again.".into(), "Once more, I went inside.".into()])]), weave(vec![ch(true, "", "Try again", "", vec![to("test")])], None)],
+                )],
+            ),
+        ),
+        (
+            "choices/conditional-choice.ink.json",
+            prog(
+                vec![],
+                vec![
+                    tl("Test conditional choices"),
+                    weave(
+                        vec![
+                            Choice { conds: vec![Expr::Bool(true), Expr::Bool(false)], ..ch(false, "not displayed", "", "", vec![]) },
+                            Choice { conds: vec![Expr::Bool(true), Expr::Bool(true), Expr::bin(Expr::Bool(true), BinOp::And, Expr::Bool(true))], ..ch(false, "one", "", "", vec![]) },
+                            Choice { conds: vec![Expr::Bool(false)], ..ch(false, "not displayed", "", "", vec![]) },
+                            Choice { conds: vec![Expr::Bool(true)], ..ch(false, "two", "", "", vec![]) },
+                            Choice { conds: vec![Expr::Bool(true), Expr::Bool(true)], ..ch(false, "three", "", "", vec![]) },
+                            Choice { conds: vec![Expr::Bool(true)], ..ch(false, "four", "", "", vec![]) },
+                        ],
+                        None,
+                    ),
+                ],
+                vec![],
+            ),
+        ),
+        (
+            "conditional/ifelse-ext-text2.ink.json",
+            prog(
+                vec![("x", Expr::Int(2))],
+                vec![
+                    Stmt::If {
+                        branches: vec![(Expr::bin(x(), BinOp::Eq, Expr::Int(0)), vec![tl("This is text 1.")]), (Expr::bin(x(), BinOp::Gt, Expr::Int(0)), vec![tl("This is text 2.")])],
+                        else_: Some(vec![tl("This is text 3.")]),
+                    },
+                    weave(vec![ch(true, "", "The Choice.", "", vec![to("to_end")])], None),
+                ],
+                vec![knot("to_end", vec![Stmt::Line { parts: vec![t("This is the end. ")], tags: vec![], divert: Some(Target::End) }])],
+            ),
+        ),
+        (
+            "gather/gather-basic.ink.json",
+            prog(
+                vec![],
+                vec![
+                    tl("What's that?\" my master asked."),
+                    weave(
+                        vec![
+                            ch(false, "\"I am somewhat tired", ".\"", ",\" I repeated.", vec![tl("\"Really,\" he responded. \"How deleterious.\"")]),
+                            ch(false, "\"Nothing, Monsieur!\"", "", " I replied.", vec![tl("\"Very good, then.\"")]),
+                            ch(false, "\"I said, this journey is appalling", ".\"", " and I want no more of it.\"", vec![tl("\"Ah,\" he replied, not unkindly. \"I see you are feeling frustrated. Tomorrow, things will improve.\"")]),
+                        ],
+                        g("With that Monsieur Fogg left the room."),
+                    ),
+                    end(),
+                ],
+                vec![],
+            ),
+        ),
+        (
+            "choices/label-scope.ink.json",
+            prog(vec![], vec![to("knot")], {
+                vec![Knot {
+                    name: "knot".into(),
+                    params: vec![],
+                    is_function: false,
+                    body: vec![],
+                    stitches: vec![
+                        (
+                            "stitch_one".into(),
+                            vec![
+                                weave(vec![ch(false, "an option", "", "", vec![])], Some(Gather { label: Some("gatherpoint".into()), parts: vec![t("Some content.")] })),
+                                Stmt::Divert(Target::Stitch("knot".into(), "stitch_two".into())),
+                            ],
+                        ),
+                        ("stitch_two".into(), vec![weave(vec![Choice { conds: vec![Expr::Count("gatherpoint".into())], ..ch(false, "Found gatherpoint", "", "", vec![end()]) }], None)]),
+                    ],
+                }]
+            }),
+        ),
+        (
+            "function/complex-func1.ink.json",
+            prog(
+                vec![("x", Expr::Int(0)), ("y", Expr::Int(3))],
+                vec![Stmt::CallStmt(Expr::Call("derp".into(), vec![Expr::Int(2), Expr::Int(3), Expr::Int(4)])), line(vec![t("The values are "), p(x()), t(" and "), p(Expr::var("y")), t(".")]), end()],
+                vec![func(
+                    "derp",
+                    &["a", "b", "c"],
+                    vec![
+                        Stmt::set("x", Expr::bin(Expr::var("a"), BinOp::Add, Expr::var("b"))),
+                        Stmt::If { branches: vec![(Expr::bin(x(), BinOp::Eq, Expr::Int(5)), vec![Stmt::set("x", Expr::Int(6))])], else_: None },
+                        Stmt::set("y", Expr::bin(x(), BinOp::Add, Expr::var("c"))),
+                    ],
+                )],
+            ),
+        ),
+    ]
 }
